@@ -29,6 +29,7 @@ TABLE = {
     "c11_merge_fold_not_wrapped.diff": ("contracts.c11", "_try_fold_wire_merge", None),
     "c16_iterator_leaks_into_outer.diff": ("contracts.c16", "lower_for_stmt", None),
     "c16_le.diff": ("contracts.c16", "get_iteration_values", None),
+    "c03_declared_enable_is_constant.diff": ("contracts.c03", "_lower_standard_write", None),
     "c03_no_projection.diff": ("contracts.c03", "_lower_standard_write", None),
     # seeded changes (written by sub-agents from the property text alone) that touch a function under contract
     "../seeded/C11-1/patch.diff": ("contracts.c11", "_fold_arithmetic", None),
